@@ -9,12 +9,15 @@ MC      MC_Stream: frames of body sizes 0..3 (3 > MaxBody = 2: refused), every c
         ClientRecv, VIEW hiding history; requests of different sizes, buffers with a length: NoMixing (the handler sees every
         octet of its client's request; the reply leaves from the local address the request was sent to).  Non-vacuity: with
         Swapped = TRUE (Release before Decode), KeepLen = TRUE (the released buffer keeps the length of the last datagram) and
-        SessShared = TRUE (the session data is overwritten by the next datagram) it MUST fail.
+        SessShared = TRUE (the session data is overwritten by the next datagram) and DoubleRelease = TRUE (the path of
+        datagrams that never reach a handler releases its buffer twice; PoolOnce) it MUST fail.
 GEN     Gen_Stream: the MC behaviours laid over the real sizes {12, 13, 255, 256, 257, 512, 4096, 65535} (+ 65536: refused):
         chunkings over the meaningful offsets of each frame, end of stream at each of them, a write failing at each of them
         -> `exchange replay` through Conn.ReadMsgHeader / Read / ReadMsg / Write / WriteMsg and, on a real server over an
         in-memory listener, readTCP (seen through a DecorateReader) and response.Write / WriteMsg (also two handler goroutines
-        writing on one connection).  Reply-ID vectors through Client.ExchangeWithConn on stream and datagram fakes (simulated
+        answering pipelined queries on one connection: Write with the fake alternating the writers; WriteMsg with distinct
+        replies, once with a DecorateWriter gate forcing "A packed, B packed and written, A written", once freely -- the
+        free run also in a -race build).  Reply-ID vectors through Client.ExchangeWithConn on stream and datagram fakes (simulated
         deadline; a few with a real one; the fakes record every read deadline they are given: after the request is written it
         must not move later -- Stream.MaxDeadlineExtensions), Client.ExchangeContext on real loopback sockets, and ExchangeWithConn over a real socket
         of every transport KIND the spec names (Stream.KindRules): tcp, unix stream, the two wrapped in another conn type, udp,
@@ -65,12 +68,16 @@ def mc_all(ctx):
     r = mc(ctx, "MC_Stream", {"ReadFullSem": "FALSE"}, must_pass=False)
     if r.ok or "Invariant StreamSound is violated" not in r.out:
         raise vp.Infra("non-vacuity: MC_Stream with a single Read for the body must violate StreamSound:\n" + r.out[-800:])
-    # two local addresses without resends, one local address with resends (thorough: both at once, and two resends)
-    mc(ctx, "MC_Exchange", {} if ctx.quick else {"MaxResend": 1})
-    mc(ctx, "MC_Exchange", {"Locals": "{1}", "MaxResend": 1 if ctx.quick else 2})
+    # quick: two local addresses + one unhandled datagram, no resend; one address with a resend
+    # thorough: also two addresses with a resend, and one address with two resends
+    mc(ctx, "MC_Exchange", {})
+    mc(ctx, "MC_Exchange", {"Locals": "{1}", "MaxResend": 1 if ctx.quick else 2, "MaxJunk": 0})
+    if not ctx.quick:
+        mc(ctx, "MC_Exchange", {"MaxResend": 1, "MaxJunk": 0})
     for const, what in (("Swapped", "Release before Decode"),
                         ("KeepLen", "a released buffer keeping the last datagram's length"),
-                        ("SessShared", "session data that the next datagram overwrites")):
+                        ("SessShared", "session data that the next datagram overwrites"),
+                        ("DoubleRelease", "the unhandled-datagram path releasing its buffer twice")):
         r = mc(ctx, "MC_Exchange", {const: "TRUE"}, must_pass=False)
         if r.ok or "Invariant Inv is violated" not in r.out:
             raise vp.Infra("non-vacuity: MC_Exchange with %s must violate NoMixing:\n%s" % (what, r.out[-800:]))
@@ -96,6 +103,30 @@ def gen_replay(ctx, binp, mode, nshards=1, shards=(0,)):
         s = ctx.run_json(binp, ["replay", path], timeout=1800)
         vp.absorb(ctx, s)
     vp.parallel([lambda sh=sh: one(sh) for sh in shards], maxpar=4)
+
+
+def race_run(ctx):
+    """Two handler goroutines answering pipelined queries on one TCP connection with WriteMsg, in a -race build:
+    a race report naming miekg/dns code is a violation."""
+    binr = ctx.build("exchange", race=True)
+    r, vecs = ctx.tlc_vectors("Gen_Stream", workers=1, xmx="3g", timeout=3000,
+                              consts={"Mode": '"frames2"', "NShards": 16, "Shard": ctx.seed % 16, "Extra": "{}"})
+    path = os.path.join(r.dir, "vectors.ndjson")
+    p = ctx.run(binr, ["replay", path, "response.WriteMsg-concurrent"], env={"GORACE": "halt_on_error=0 exitcode=66"},
+                ok_codes=(0, 66), timeout=1800)
+    if "DATA RACE" in p.stderr:
+        if "github.com/miekg/dns." in p.stderr:
+            ctx.candidate("stream/response.WriteMsg-concurrent/data-race",
+                          "race detector report while two goroutines answer pipelined queries on one TCP connection with WriteMsg",
+                          {"race": True, "report": p.stderr[:4000]})
+        else:
+            raise vp.Infra("race report inside the harness itself:\n" + p.stderr[:3000])
+    elif p.returncode != 0:
+        raise vp.Infra("race build exited %d:\n%s" % (p.returncode, p.stderr[-2000:]))
+    try:
+        vp.absorb(ctx, json.loads(p.stdout.strip().splitlines()[-1]))
+    except Exception as ex:
+        raise vp.Infra("race build produced no summary: %s" % ex)
 
 
 def tv(ctx, binp, tr, n, rounds, k):
@@ -137,6 +168,7 @@ def judge(ctx, path):
 
 def run(ctx):
     binp = ctx.build("exchange")
+    ctx.build("exchange", race=True)      # warm: race_run builds again from the cache
     mc_all(ctx)
     if ctx.quick:
         jobs = [
@@ -146,6 +178,7 @@ def run(ctx):
             lambda: gen_replay(ctx, binp, "shortw", 2, [ctx.seed % 2]),
             lambda: gen_replay(ctx, binp, "refuse"),
             lambda: gen_replay(ctx, binp, "id"),
+            lambda: race_run(ctx),
         ]
         k = 0
         for tr in ("udp", "udpmulti", "pc", "tcp", "tcpreal"):
@@ -163,6 +196,7 @@ def run(ctx):
             lambda: gen_replay(ctx, binp, "shortw", 2, range(2)),
             lambda: gen_replay(ctx, binp, "refuse"),
             lambda: gen_replay(ctx, binp, "id"),
+            lambda: race_run(ctx),
         ]
         k = 0
         for rep in range(6):
@@ -190,7 +224,11 @@ def replay(ctx, path):
     binp = ctx.build("exchange")
     rp = json.load(open(path))
     case = rp["case"]
-    if "event" in case:
+    if case.get("race"):
+        n0 = len(ctx.cands)
+        race_run(ctx)
+        bad = any(c["key"] == rp["key"] for c in ctx.cands[n0:])
+    elif "event" in case:
         ev = case["event"]
         # concurrency finding: run the same recorder again (up to 5 times) and look for the same key
         bad = False
